@@ -140,7 +140,12 @@ fn run(input: &Tree) -> Option<Tree> {
             if p.len() != 4 {
                 return None;
             }
-            let r = ratio(p.get(1)?, p.get(2)?)? as f32;
+            // a flip rate may exceed 1 (every gene is then flipped): not a probability handed to a distribution
+            let (rn, rd) = (p.get(1)?.i64()?, p.get(2)?.i64()?);
+            if rd <= 0 || rn < 0 {
+                return None;
+            }
+            let r = (rn as f64 / rd as f64) as f32;
             let g = v64(p.get(3)?)?;
             let m = WithRate::new(r);
             match kind {
@@ -296,6 +301,25 @@ fn run(input: &Tree) -> Option<Tree> {
             }
             tl![A(0), L(vec![tl![tl![A(1)], a(flipped)], tl![tl![A(0)], a(total - flipped)]])]
         }
+        14 => {
+            // uniform crossover in every argument form: 0 [Vec;2], 1 (Vec,Vec), 2 [Bitstring;2], 3 (Bitstring,Bitstring)
+            if p.len() != 4 {
+                return None;
+            }
+            let form = p.get(1)?.int()?;
+            let (x, y) = (v64(p.get(2)?)?, v64(p.get(3)?)?);
+            if x.len() != y.len() || (form >= 2 && x.iter().chain(y.iter()).any(|b| *b != 0 && *b != 1)) {
+                return None;
+            }
+            let bs = |v: &[i64]| Bitstring { bits: v.iter().map(|b| *b != 0).collect() };
+            match form {
+                0 => hist(n, seed, |rng| UniformXo.recombine([x.clone(), y.clone()], rng).unwrap()),
+                1 => hist(n, seed, |rng| UniformXo.recombine((x.clone(), y.clone()), rng).unwrap()),
+                2 => hist(n, seed, |rng| b2v(UniformXo.recombine([bs(&x), bs(&y)], rng).unwrap().bits)),
+                3 => hist(n, seed, |rng| b2v(UniformXo.recombine((bs(&x), bs(&y)), rng).unwrap().bits)),
+                _ => return None,
+            }
+        }
         6 => {
             if p.len() != 3 {
                 return None;
@@ -396,7 +420,7 @@ fn gen_c11(tier: &str, rng: &mut Sm) -> Gen {
     let mut g = Gen::new();
     let n = if tier == "thorough" { 20000 } else { 1500 };
     let reps = if tier == "thorough" { 6 } else { 1 };
-    let rates: [(i64, i64); 6] = [(0, 1), (1, 4), (1, 2), (1, 1), (3, 16), (15, 16)];
+    let rates: [(i64, i64); 9] = [(0, 1), (1, 4), (1, 2), (1, 1), (3, 16), (15, 16), (16777217, 16777216), (3, 2), (1000, 1)];
     for _ in 0..reps {
         for len in 0..=12usize {
             let bits: Vec<i64> = (0..len).map(|_| rng.range(0, 1)).collect();
@@ -469,6 +493,10 @@ fn gen_c12(tier: &str, rng: &mut Sm) -> Gen {
         let pa: Vec<i64> = (0..len as i64).collect();
         let pb: Vec<i64> = (20..20 + len as i64).collect();
         g.inputs.push(case(rng, n, tl![A(6), tv(&pa), tv(&pb)]));
+        // every argument form, on complementary parents (a child bit tells its parent)
+        for form in 0..4i128 {
+            g.inputs.push(case(rng, n, tl![A(14), a(form), tv(&vec![0; len]), tv(&vec![1; len])]));
+        }
     }
     for (pn, pd) in [(0i64, 1i64), (1, 8), (1, 2), (7, 8), (1, 1)] {
         g.inputs.push(case(rng, n, tl![A(7), A(5), a(pn), a(pd)]));
